@@ -1120,6 +1120,14 @@ class DataFrameSchema(Generic[TDataObject], BaseSchema):
             if not level_temp or isinstance(new_schema.index, Index)
             else new_schema.index.remove_columns(level_temp)
         )
+        if new_index is not None:
+            # remove_columns only updates the columns of the MultiIndex: drop
+            # the removed levels from its index components too
+            new_index.indexes = [
+                index
+                for index in new_index.indexes
+                if index.name not in level_temp
+            ]
         new_index = (
             new_index
             if new_index is None
